@@ -14,7 +14,8 @@ RULE = ('E1: every scalar of the boundary alphabet S (every ladder boundary '
         'chains; every nesting depth 1..130 (thorough 200) in four list/dict '
         'patterns with a scalar / empty container innermost (up to 32 the '
         'encoder must accept, beyond it what it accepts must round-trip); '
-        'key alphabet; homogeneous arrays and tables of every element '
+        'every Unicode code point alone / first / last in long strings and in '
+        'field names; key alphabet; homogeneous arrays and tables of every element '
         'kind (15) for every count 0..69 and 100 127 128 255 256 257 400, '
         'all-same, cycling, and with one foreign-typed element first / '
         'middle / last; every array of <= 3 (thorough 4) elements over 31 '
@@ -30,7 +31,60 @@ ASSUMPTIONS = ['interior values (other integers, strings, floats) are '
 
 
 def tasks(tier, seed):
-    return values.value_tasks(tier)
+    return values.value_tasks(tier) + values.codepoint_tasks()
+
+
+def check_codepoints(ctx, lo, hi):
+    """Every code point of [lo, hi) alone / first / last in long strings
+    (an array of them, a table of them) and in field names: round trip."""
+    p = lib.pamqp()
+    for first, strings, names in values.codepoint_blocks(lo, hi):
+        ctx.case(('cp', first), True, sample=lambda: {
+            'code_points': '%#x..%#x' % (first, first + values.CP_BLOCK - 1),
+            'forms': ['c', 'c+ab', 'ab+c', 'field names c+k / k+c']})
+        for label, enc, dec, value in (
+                ('array of strings', p.encode.field_array,
+                 p.decode.field_array, strings),
+                ('table with these field names', p.encode.field_table,
+                 p.decode.field_table, names),
+                ('table of strings', p.encode.field_table,
+                 p.decode.field_table,
+                 {'s%03d' % i: v for i, v in enumerate(strings)})):
+            case = {'codepoints': [first, first + values.CP_BLOCK],
+                    'what': label}
+            fp = 'codepoints|%#x|%s' % (first, label)
+            try:
+                data = enc(value)
+                consumed, out = dec(data)
+                ctx.calls(2)
+            except Exception as exc:  # noqa
+                ctx.outcome('raised')
+                ctx.violation(fp, '{} for code points {:#x}..: {!r}'.format(
+                    label, first, exc), case, 'round trip', repr(exc))
+                continue
+            ctx.valid()
+            if consumed != len(data) or canon(out) != canon(value):
+                # name the first differing element
+                diff = ''
+                if isinstance(value, list) and isinstance(out, list):
+                    for a, b in zip(value, out):
+                        if a != b:
+                            diff = ' (sent %r, got %r)' % (a, b)
+                            break
+                elif isinstance(value, dict) and isinstance(out, dict):
+                    for k in value:
+                        if k not in out or out[k] != value[k]:
+                            diff = ' (field %r: sent %r, got %r)' % (
+                                k, value[k], out.get(k, 'MISSING'))
+                            break
+                ctx.outcome('mismatch')
+                ctx.violation(fp, '{} for code points {:#x}..{:#x} does not '
+                              'round-trip{}'.format(
+                                  label, first, first + values.CP_BLOCK - 1,
+                                  diff), case, short(value, 200),
+                              short(out, 200))
+            else:
+                ctx.outcome('ok')
 
 
 def codec(position):
@@ -90,6 +144,9 @@ def check_one(ctx, position, v):
 
 
 def run(task, ctx):
+    if task[0] == 'codepoints':
+        check_codepoints(ctx, task[1], task[2])
+        return
     for v in values.values(task, ctx.tier, ctx.seed):
         for position in values.POSITIONS:
             if position == 'table' and isinstance(v, dict) and \
@@ -104,4 +161,7 @@ def run(task, ctx):
 
 
 def replay(case, ctx):
+    if 'codepoints' in case:
+        check_codepoints(ctx, case['codepoints'][0], case['codepoints'][1])
+        return
     check_one(ctx, case['position'], fromjson(case['value']))
